@@ -124,3 +124,33 @@ void drv_c19_old(int tier, unsigned long seed, const char *extra) {
     rec_quiesce();
   }
 }
+
+/* c19_mcorner: mpz_urandomm / mpz_urandomb / mpz_rrandomb with CORNER moduli and bit counts into destinations in every state: the modulus runs through
+   2^k and 2^k +- 1 for k around every limb boundary up to 4 limbs (n = B^j exactly: the result needs one limb fewer than n has) and through the corner-alphabet
+   operands; the destination is fresh, or holds a LONGER all-ones value (stale limbs above the result), or IS the modulus (rop == n); twin states must agree
+   (reproducibility ghost) whatever the destinations held before. */
+void drv_c19_mcorner(int tier, unsigned long seed, const char *extra) {
+  shard_t sh = shard_parse(extra); long x = 0; int kind, mi, j;
+  static const int ks[] = {1, 2, 31, 32, 33, 63, 64, 65, 127, 128, 129, 191, 192, 193, 256};
+  for (kind = 1; kind < 4; kind++) for (mi = 0; mi < 15; mi++) {
+    int d, st;
+    x++; if (!MINE(sh, x)) continue;
+    if (sh.pure && (mi > 6 || kind > 1)) continue;
+    rec_reset("c19_mcorner", x, seed);
+    for (j = 0; j < 8; j++) callf("mpz_init", j);
+    init_kind(0, kind, kind == 2 ? 100 : 129); init_kind(1, kind, kind == 2 ? 100 : 129); seed_state(0, mi % 3); seed_state(1, mi % 3);
+    for (d = -1; d <= 1; d++) for (st = 0; st < 3; st++) { int rep;
+      callf("drv_setz", 5, "1"); callf("mpz_mul_2exp", 5, 5, (uint64_t)ks[mi]); if (d > 0) callf("mpz_add_ui", 5, 5, (uint64_t)1); else if (d < 0) callf("mpz_sub_ui", 5, 5, (uint64_t)1);
+      for (rep = 0; rep < 2; rep++) { int t;
+        for (t = 0; t < 2; t++) { int dst = 2 + t;        /* twin t draws into its own destination, prepared the same way */
+          if (st == 0) { callf("mpz_clear", dst); callf("mpz_init", dst); }
+          else if (st == 1) { callf("drv_rndz", dst, (int)ABSIZ(Zp[5]) + 1 + rep, 1, rep); }
+          else callf("mpz_set", dst, 5);
+          if (st == 2) callf("mpz_urandomm", dst, t, dst); else callf("mpz_urandomm", dst, t, 5); }
+        if (st == 1) { callf("drv_rndz", 2, (int)ABSIZ(Zp[5]) + 2, 1, 0); callf("mpz_urandomb", 2, 0, (uint64_t)(ks[mi] + d)); callf("drv_rndz", 3, 1, 0, 0); callf("mpz_urandomb", 3, 1, (uint64_t)(ks[mi] + d));
+                       callf("drv_rndz", 2, (int)ABSIZ(Zp[5]) + 2, 1, 1); callf("mpz_rrandomb", 2, 0, (uint64_t)(ks[mi] + d)); callf("mpz_rrandomb", 3, 1, (uint64_t)(ks[mi] + d)); } } }
+    callf("gmp_randclear", 0); callf("gmp_randclear", 1);
+    for (j = 0; j < 8; j++) callf("mpz_clear", j);
+    rec_quiesce();
+  }
+}
